@@ -148,23 +148,25 @@ static DP_UNUSED const char *dp_hex(const uint8_t *p, size_t n, char *out, size_
 	return out;
 }
 
-/* ---- debugging aid (replay only): DP_ALLOC_TRACE=1 lists the library allocations still live ---- */
+/* ---- debugging aid (replay only): DP_ALLOC_TRACE=1 lists the library allocations made after the last mark and still live ---- */
 #include <execinfo.h>
 #include <event2/event.h>
 #define DP_TR_MAX 4096
-static struct { void *p; size_t n; void *bt[12]; int nbt; } dp_tr[DP_TR_MAX]; static int dp_tr_on;
-static void *dp_tr_malloc(size_t n) { void *p = malloc(n ? n : 1); if (p) for (int i = 0; i < DP_TR_MAX; i++) if (!dp_tr[i].p) { dp_tr[i].p = p; dp_tr[i].n = n; dp_tr[i].nbt = backtrace(dp_tr[i].bt, 12); break; } return p; }
+static struct { void *p; size_t n; void *bt[14]; int nbt; long seq; } dp_tr[DP_TR_MAX]; static int dp_tr_on; static long dp_tr_seq, dp_tr_mark;
+static void *dp_tr_malloc(size_t n) { void *p = malloc(n ? n : 1); if (p) for (int i = 0; i < DP_TR_MAX; i++) if (!dp_tr[i].p) { dp_tr[i].p = p; dp_tr[i].n = n; dp_tr[i].seq = ++dp_tr_seq; dp_tr[i].nbt = backtrace(dp_tr[i].bt, 14); break; } return p; }
 static void dp_tr_free(void *p) { if (!p) return; for (int i = 0; i < DP_TR_MAX; i++) if (dp_tr[i].p == p) { dp_tr[i].p = NULL; break; } free(p); }
 static void *dp_tr_realloc(void *p, size_t n) { if (!p) return dp_tr_malloc(n); if (!n) { dp_tr_free(p); return NULL; } void *q = realloc(p, n); for (int i = 0; i < DP_TR_MAX; i++) if (dp_tr[i].p == p) { dp_tr[i].p = q; dp_tr[i].n = n; break; } return q; }
 static DP_UNUSED int dp_alloc_trace_install(void) { if (!getenv("DP_ALLOC_TRACE")) return 0; dp_tr_on = 1; event_set_mem_functions(dp_tr_malloc, dp_tr_realloc, dp_tr_free); return 1; }
+static DP_UNUSED void dp_alloc_trace_mark(void) { dp_tr_mark = dp_tr_seq; }
 static DP_UNUSED void dp_alloc_trace_dump(const char *why)
 {
 	if (!dp_tr_on) return;
-	int n = 0; for (int i = 0; i < DP_TR_MAX; i++) if (dp_tr[i].p) n++;
-	fprintf(stderr, "--- live library allocations (%d) at: %s\n", n, why);
-	for (int i = 0; i < DP_TR_MAX; i++) if (dp_tr[i].p) { fprintf(stderr, "  %p size %zu\n", dp_tr[i].p, dp_tr[i].n); backtrace_symbols_fd(dp_tr[i].bt + 1, dp_tr[i].nbt - 1, 2); }
+	for (int i = 0; i < DP_TR_MAX; i++) if (dp_tr[i].p && dp_tr[i].seq > dp_tr_mark) {
+		fprintf(stderr, "--- live allocation %p size %zu seq %ld at: %s\n", dp_tr[i].p, dp_tr[i].n, dp_tr[i].seq, why);
+		backtrace_symbols_fd(dp_tr[i].bt + 1, dp_tr[i].nbt - 1, 2);
+		dp_tr[i].seq = 0;   /* report once */
+	}
 }
-static DP_UNUSED long dp_alloc_trace_live(void) { long n = 0; for (int i = 0; i < DP_TR_MAX; i++) if (dp_tr[i].p) n++; return n; }
 
 /* argv pre-scan for -P name=value (mc_main parses them too; we need some before mc_main to size n_items) */
 static DP_UNUSED const char *dp_argv_param(int argc, char **argv, const char *name, const char *dflt)
